@@ -109,6 +109,14 @@ func Root() string {
 	return "/verif"
 }
 
+// replayDir is where violations are written (redirected for sensitivity runs against mutated copies of the repository).
+func replayDir(root string) string {
+	if d := os.Getenv("VT_REPLAY_DIR"); d != "" {
+		return d
+	}
+	return filepath.Join(root, "replays")
+}
+
 // Begin starts recording for one property in this process (one shard).
 func Begin(t *testing.T, m Meta) *Recorder {
 	r := &Recorder{
@@ -256,7 +264,7 @@ func (r *Recorder) Violation(sub string, enc []byte, err error) string {
 		if len(msg) > 800 {
 			msg = msg[:800]
 		}
-		dir := filepath.Join(r.Root, "replays", r.Meta.ID)
+		dir := filepath.Join(replayDir(r.Root), r.Meta.ID)
 		_ = os.MkdirAll(dir, 0o755)
 		doc := replayDoc{Property: r.Meta.ID, Sub: sub, Error: err.Error(), Case: json.RawMessage(enc)}
 		if b, mErr := json.MarshalIndent(doc, "", " "); mErr == nil {
@@ -266,7 +274,7 @@ func (r *Recorder) Violation(sub string, enc []byte, err error) string {
 		return ""
 	}
 	r.part.Violations++
-	dir := filepath.Join(r.Root, "replays", r.Meta.ID)
+	dir := filepath.Join(replayDir(r.Root), r.Meta.ID)
 	_ = os.MkdirAll(dir, 0o755)
 	doc := replayDoc{Property: r.Meta.ID, Sub: sub, Error: err.Error(), Case: json.RawMessage(enc)}
 	b, mErr := json.MarshalIndent(doc, "", " ")
@@ -312,6 +320,34 @@ func (r *Recorder) Finish() {
 	}
 	if err := os.WriteFile(out, b, 0o644); err != nil {
 		fmt.Fprintf(Stdout, "INCONCLUSIVE property=%s cannot write part: %v\n", r.Meta.ID, err)
+	}
+}
+
+// FuzzFail is called by native fuzz targets when their oracle fails: it stores the case as a JSON replay file (the driver
+// re-runs the smallest one through the deterministic replay path before reporting a violation).
+func FuzzFail(id, sub string, c any, err error) {
+	enc, mErr := json.Marshal(c)
+	if mErr != nil {
+		return
+	}
+	dir := filepath.Join(replayDir(Root()), id)
+	_ = os.MkdirAll(dir, 0o755)
+	doc := replayDoc{Property: id, Sub: sub, Error: err.Error(), Case: json.RawMessage(enc)}
+	if b, mErr := json.MarshalIndent(doc, "", " "); mErr == nil {
+		_ = os.WriteFile(filepath.Join(dir, fmt.Sprintf("fuzz-%s-%016x.json", sub, hashOf(sub, enc))), b, 0o644)
+	}
+}
+
+// FuzzProp adapts a Sub to rapid.MakeFuzz: the fuzzer's bytes drive the generator.
+func FuzzProp[C any](id string, s Sub[C]) func(*rapid.T) {
+	return func(t *rapid.T) {
+		c := s.Gen(t)
+		if err := runOracle(s.Oracle, c); err != nil {
+			if !strings.Contains(err.Error(), "harness:") {
+				FuzzFail(id, s.Name, c, err)
+			}
+			t.Fatalf("%v", err)
+		}
 	}
 }
 
